@@ -46,6 +46,7 @@ def units(tier):
     for a in CANON:
         us.append(("aba", a))
     # (4) reset through DateTimeOperator() and the single-switch reset validation against real subprocesses
+    us.append(("case_spellings",))
     us.append(("operator_reset",))
     for a in SPELLINGS:
         us.append(("validate_reset", a))
@@ -167,6 +168,29 @@ def run_unit(unit, ctx):
                     # A: k1 k2 / B: k1 k2 / A again: k1 k2 (a probe repeated within one mode; return to a mode)
                     run_history(ctx, [["S", a, "api"], ["Q", k1], ["Q", k2], ["S", b, "api"], ["Q", k1], ["Q", k2],
                                       ["S", a, "api"], ["Q", k1], ["Q", k2], ["Q", k1]], "aba")
+        elif u == "case_spellings":
+            # set_mode accepts any capitalisation of the seven spellings; the results are those of the mode named
+            for sp in ("Gregorian", "GREGORIAN", "360Day", "360_DAY", "365DAY", "366_Day"):
+                low = sp.lower()
+                for ch in ("api", "operator", "env"):
+                    reset_context()
+                    probes.switch(sp, ch)
+                    probes.CURRENT["cli"] = probes.CLI_SPELLING[low]
+                    for k in names:
+                        ctx.transitions += 1
+                        impl._H.ticks = 0
+                        try:
+                            got = json.loads(json.dumps(_TABLE[k]()))
+                        except Exception as ex:  # noqa
+                            got = "EXC:%s:%s" % (type(ex).__name__, ex)
+                        want = fresh(low)["forward"][k]
+                        if got != want:
+                            ctx.violation("mode_determines_result", {"probe": k, "mode": M.MODE_KIND[low], "spelling_case": True,
+                                                                     "after_other_mode": False, "label": "case_spellings"},
+                                          {"kind": "history", "history": [["S", sp, ch], ["Q", k]]},
+                                          {"fresh_single_mode_process": want, "mode": low}, got)
+                    ctx.traces += 1
+                    ctx.state(("case", sp, ch))
         elif u == "operator_reset":
             for a in SPELLINGS:
                 for k1 in names:
